@@ -563,7 +563,15 @@ func c08Gen(r *rng, thorough bool) c08Input {
 	}
 	pNotary, pConfl, pOracle := 38, 45, 28
 	sponsoredProfile := false
-	switch r.intn(5) {
+	cosignedProfile := false // who signs vs who pays: conflicts against transactions the newcomer's payer only co-signed
+	pCosign := 18
+	switch r.intn(6) {
+	case 2:
+		cosignedProfile = true
+		ordinary = []int{2, 3}
+		depositors = []int{2, 3} // every payer account both sends ordinary transactions and sponsors Notary ones
+		pNotary, pConfl, pOracle, pCosign = 45, 80, 8, 40
+		in.Cap = 3 + r.intn(4)
 	case 0: // sponsored transactions of several depositors replacing each other, deposits nearly used up
 		pNotary, pConfl, pOracle = 85, 75, 10
 		sponsoredProfile = true
@@ -586,17 +594,21 @@ func c08Gen(r *rng, thorough bool) c08Input {
 		} else {
 			d.Signers = []int{pick(r, ordinary)}
 		}
-		for _, a := range []int{2, 3, 4, 5, 6} { // co-signers
+		cos := []int{2, 3, 4, 5, 6}
+		if cosignedProfile {
+			cos = []int{2, 3, 4}
+		}
+		for _, a := range cos { // co-signers
 			dup := false
 			for _, s := range d.Signers {
 				dup = dup || s == a
 			}
-			if !dup && r.chance(18) {
+			if !dup && r.chance(pCosign) {
 				d.Signers = append(d.Signers, a)
 			}
 		}
 		d.Net = pick(r, nets)
-		if sponsoredProfile {
+		if sponsoredProfile || cosignedProfile {
 			d.Net = pick(r, []int64{100, 200, 300, 400})
 		}
 		if r.chance(10) {
@@ -609,15 +621,19 @@ func c08Gen(r *rng, thorough bool) c08Input {
 			k := 1 + r.intn(2)
 			for j := 0; j < k; j++ {
 				c := r.intn(i)
-				if r.chance(60) { // prefer a transaction sharing a signer
-					for tries := 0; tries < 4; tries++ {
+				if r.chance(60) || cosignedProfile { // prefer a transaction sharing a signer
+					for tries := 0; tries < 8; tries++ {
 						share := false
 						for _, a := range in.Txs[c].Signers {
 							for _, b := range d.Signers {
 								share = share || a == b && a != 1
 							}
 						}
-						if share {
+						// ... and, in the co-signed profile, one that somebody else pays for
+						if share && (!cosignedProfile || c08Payer(in.Txs[c]) != c08Payer(d) || tries > 5) {
+							if cosignedProfile && r.chance(70) {
+								d.Net = in.Txs[c].Net + 100 // out-bid it
+							}
 							break
 						}
 						c = r.intn(i)
@@ -645,8 +661,11 @@ func c08Gen(r *rng, thorough bool) c08Input {
 		var b []c08Bal
 		vals := []int64{0, 150, 300, 300, 500, 700, 1000, 1500}
 		dvals := vals
-		if sponsoredProfile {
+		if sponsoredProfile || cosignedProfile {
 			dvals = []int64{300, 400, 500, 600, 700}
+		}
+		if cosignedProfile {
+			vals = dvals
 		}
 		for _, a := range ordinary {
 			b = append(b, c08Bal{P: a, S: 0, V: pick(r, vals)})
@@ -657,7 +676,7 @@ func c08Gen(r *rng, thorough bool) c08Input {
 		return b
 	}
 	in.Bal = genBal()
-	if sponsoredProfile { // first offer the transactions roughly in the order they were made
+	if sponsoredProfile || cosignedProfile { // first offer the transactions roughly in the order they were made
 		for i := 0; i < ntx; i++ {
 			if r.chance(85) {
 				in.Ops = append(in.Ops, c08Op{Op: "add", I: i})
